@@ -117,10 +117,13 @@ def check(prog, res, tier):
                     return None
                 a = e.data['args']
                 return it.py_key(a[1]) if len(a) > 1 else it.py_key(e.data['kwargs'].get('mode')) if 'mode' in e.data['kwargs'] else 'r'
-            if mode_of(rf) != 'rb':
-                fails.append(definite(f'the reader is given a file opened with mode {mode_of(rf)!r}'))
-            if mode_of(wf) != 'wb':
-                fails.append(definite(f'the writer is given a file opened with mode {mode_of(wf)!r}'))
+            for f_, want_, who in ((rf, 'rb', 'reader'), (wf, 'wb', 'writer')):
+                m_ = mode_of(f_)
+                if m_ is None:
+                    # the object handed over is not one this analysis saw being opened (unmodelled plumbing): no verdict
+                    fails.append(soft(f'the {who} is given {f_!r}, whose opening was not observed'))
+                elif m_ != want_:
+                    fails.append(definite(f'the {who} is given a file opened with mode {m_!r}'))
             if rf in opens and opens[rf].data['args'] and opens[rf].data['args'][0] is not u['inp']:
                 fails.append(definite('the reader does not read the input file'))
             src = it.binds.get('sourceformat')
@@ -199,8 +202,18 @@ def check(prog, res, tier):
                 fails.append(definite('the converted records are not handed to the writer'))
             else:
                 gen = wm[0][1]
-                inner = gen.src
-                if gen.filtered or not isinstance(inner, IterV) or inner.filtered or inner.src is not ro:
+                # any number of unfiltered stages between the reader and the writer
+                stage, ok_chain = gen, True
+                for _ in range(6):
+                    if not isinstance(stage, IterV) or stage.filtered:
+                        ok_chain = False
+                        break
+                    if stage.src is ro:
+                        break
+                    stage = stage.src
+                else:
+                    ok_chain = False
+                if not ok_chain:
                     fails.append(definite('records are filtered or do not come one-to-one from the reader'))
                 else:
                     # data flow: written record == encode(decode(record read)), nothing in between
@@ -269,7 +282,8 @@ def check(prog, res, tier):
             for f_, m_, what in ((fin, 'rb', 'input'), (fout, 'wb', 'output')):
                 e = opens.get(f_)
                 if e is None:
-                    fails.append(definite(f'the {what} file is not opened by the command'))
+                    fails.append(definite(f'the {what} file is not opened by the command') if isinstance(f_, FileV) and not p.unknowns
+                                 else soft(f'the {what} file {f_!r} was not seen being opened'))
                     continue
                 a = e.data['args']
                 md = it.py_key(a[1]) if len(a) > 1 else it.py_key(e.data['kwargs'].get('mode')) if 'mode' in e.data['kwargs'] else 'r'
@@ -297,7 +311,7 @@ def check(prog, res, tier):
             for e in p.events:
                 if e.kind == 'mutate-shared':
                     fails.append(definite('the packaged configuration itself is modified', e.node))
-                if e.kind == 'delitem':
+                if e.kind == 'delitem' or (e.kind == 'dict-pop' and isinstance(e.data['obj'], GenericChild)):
                     obj = e.data['obj']
                     key = it.py_key(e.data['key'])
                     if not isinstance(obj, GenericChild):
@@ -307,7 +321,10 @@ def check(prog, res, tier):
                         fails.append(definite(f'key {key!r} is removed from the copied element configuration', e.node))
                     # which processor value is being removed on this path?
                     procs = [it.binds.get(s.name) for s in _syms_of(obj) if s.name.startswith('elem.field_processor')]
-                    if not procs or any(pv != 'PDS' for pv in procs):
+                    if not procs or any(pv is None for pv in procs):
+                        # the entries were selected in an earlier pass: which processor they carry is not tracked here
+                        fails.append(soft('a processor is removed from entries selected elsewhere: which ones is not decided', e.node))
+                    elif any(pv != 'PDS' for pv in procs):
                         fails.append(definite(f'the {procs} processor is removed from the conversion configuration: only PDS carriers '
                                               f'must stay raw, other processors (ICC ...) must keep working', e.node))
             if p.outcome == 'return':
@@ -317,7 +334,8 @@ def check(prog, res, tier):
             return fails
         ob = runs_g.judge('C19.b', 'get_config returns a private copy of the packaged bit configuration with exactly the PDS processors removed',
                           func_where(gfi), "if field_config.get('field_processor') == 'PDS': del field_config['field_processor']", chk_g)
-        removed = any(e.kind == 'delitem' for p in runs_g.inv for e in p.events)
+        removed = any(e.kind == 'delitem' or (e.kind == 'dict-pop' and isinstance(e.data['obj'], GenericChild))
+                      for p in runs_g.inv for e in p.events)
         if ob.verdict == PROVED and not removed:
             ob.verdict, ob.detail, ob.witness = REFUTED, 'no processor is removed: PDS carriers would be expanded and re-packed during conversion', {'deletes': 0}
         res.add(ob)
